@@ -231,7 +231,7 @@ Proof.
     cbn [ordered]. intros r1. split; [discriminate|]. destruct r1 as [u1|]; cbn [ordered fail]; [|exact I].
     intros r2. split; [discriminate|]. destruct r2 as [u2|]; cbn [ordered fail]; [|exact I].
     intros r3. split; [discriminate|]. destruct u1, u2.
-    destruct r3 as [[m|]|].
+    destruct (same_invoice r3 (lq_req q)) as [m|].
     - (* internal settlement: no payment at all *)
       cbn [ordered]. intros r4. split; [discriminate|]. destruct r4 as [[s pre]|]; cbn [ordered fail]; [|exact I].
       intros r5. split; [discriminate|]. destruct r5; cbn [ordered fail]; [|exact I].
@@ -256,23 +256,7 @@ Proof.
         intros r5. split; [discriminate|]. destruct r5; cbn [ordered fail bind]; [|exact I].
         intros r6. split; [discriminate|]. destruct r6; exact I. }
       destruct (a_kind lk =? 4); [apply Hrel|]. destruct (a_kind lk =? 3); [exact I|].
-      destruct (a_kind lk =? 1); [apply Hrel|]. destruct (a_kind lk =? 0); [apply Hfin|exact I].
-    - cbn [ordered]. intros a. split; [intros _; destruct Hb as [Hb|Hb]; rewrite Hb, ?orb_true_r; reflexivity|].
-      destruct (a_kind a =? 0).
-      { cbn [ordered bind]. intros r4. split; [discriminate|]. destruct r4; cbn [ordered fail bind]; [|exact I].
-        intros r5. split; [discriminate|]. destruct r5; cbn [ordered fail bind]; [|exact I].
-        intros r6. split; [discriminate|]. destruct r6; exact I. }
-      destruct (a_kind a =? 2); [exact I|].
-      cbn [ordered]. intros lk. split; [discriminate|].
-      destruct (a_kind lk =? 4).
-      { cbn [ordered]. intros r4. split; [discriminate|]. destruct r4; cbn [ordered fail]; [|exact I]. intros r5. split; [discriminate|]. destruct r5; exact I. }
-      destruct (a_kind lk =? 3); [exact I|].
-      destruct (a_kind lk =? 1).
-      { cbn [ordered]. intros r4. split; [discriminate|]. destruct r4; cbn [ordered fail]; [|exact I]. intros r5. split; [discriminate|]. destruct r5; exact I. }
-      destruct (a_kind lk =? 0); [|exact I].
-      cbn [ordered bind]. intros r4. split; [discriminate|]. destruct r4; cbn [ordered fail bind]; [|exact I].
-      intros r5. split; [discriminate|]. destruct r5; cbn [ordered fail bind]; [|exact I].
-      intros r6. split; [discriminate|]. destruct r6; exact I. }
+      destruct (a_kind lk =? 1); [apply Hrel|]. destruct (a_kind lk =? 0); [apply Hfin|exact I]. }
   split; apply G.
   - reflexivity.
   - left. cbn [ev_add_pending ok_unit]. rewrite prows_eqb_refl. reflexivity.
